@@ -1277,6 +1277,9 @@ class LocalNameFunction(Function):
     def __call__(self, kind, data, pos, namespaces, variables):
         if kind is START:
             return data[0].localname
+        if kind is PI:
+            return data[0]
+        return ''
     def __repr__(self):
         return 'local-name()'
 
@@ -1288,6 +1291,9 @@ class NameFunction(Function):
     def __call__(self, kind, data, pos, namespaces, variables):
         if kind is START:
             return data[0]
+        if kind is PI:
+            return data[0]
+        return ''
     def __repr__(self):
         return 'name()'
 
@@ -1298,7 +1304,8 @@ class NamespaceUriFunction(Function):
     __slots__ = []
     def __call__(self, kind, data, pos, namespaces, variables):
         if kind is START:
-            return data[0].namespace
+            return data[0].namespace or ''
+        return ''
     def __repr__(self):
         return 'namespace-uri()'
 
